@@ -428,7 +428,7 @@ class TransactionContext:
         if len(args) == 0:
             return self.description.strip()
         elif len(args) == 1:
-            return str(args[0]).strip()
+            return _text(args[0]).strip()
         else:
             raise ExpressionError("trim() requires 0 or 1 arguments: trim() or trim(text)")
 
@@ -441,7 +441,7 @@ class TransactionContext:
         """
         if len(args) != 3:
             raise ExpressionError("regex_replace() requires 3 arguments: regex_replace(text, pattern, replacement)")
-        text, pattern, replacement = str(args[0]), str(args[1]), str(args[2])
+        text, pattern, replacement = _text(args[0]), _text(args[1]), _text(args[2])
         return re.sub(pattern, replacement, text, flags=re.IGNORECASE)
 
     def _fn_uppercase(self, *args) -> str:
@@ -452,7 +452,7 @@ class TransactionContext:
         """
         if len(args) != 1:
             raise ExpressionError("uppercase() requires 1 argument: uppercase(text)")
-        return str(args[0]).upper()
+        return _text(args[0]).upper()
 
     def _fn_lowercase(self, *args) -> str:
         """Convert text to lowercase.
@@ -462,7 +462,7 @@ class TransactionContext:
         """
         if len(args) != 1:
             raise ExpressionError("lowercase() requires 1 argument: lowercase(text)")
-        return str(args[0]).lower()
+        return _text(args[0]).lower()
 
     def _fn_strip_prefix(self, *args) -> str:
         """Remove prefix from text if present.
@@ -472,7 +472,7 @@ class TransactionContext:
         """
         if len(args) != 2:
             raise ExpressionError("strip_prefix() requires 2 arguments: strip_prefix(text, prefix)")
-        text, prefix = str(args[0]), str(args[1])
+        text, prefix = _text(args[0]), _text(args[1])
         if text.upper().startswith(prefix.upper()):
             return text[len(prefix):]
         return text
@@ -485,7 +485,7 @@ class TransactionContext:
         """
         if len(args) != 2:
             raise ExpressionError("strip_suffix() requires 2 arguments: strip_suffix(text, suffix)")
-        text, suffix = str(args[0]), str(args[1])
+        text, suffix = _text(args[0]), _text(args[1])
         # an empty suffix removes nothing (text[:-0] would be the empty string)
         if suffix and text.upper().endswith(suffix.upper()):
             return text[:-len(suffix)]
@@ -1375,6 +1375,12 @@ class TransactionEvaluator:
         # Store in scope for later access
         self._scope[var_name] = value
         return value
+
+
+def _text(value: Any) -> str:
+    """str() for arguments of the text functions; a generator argument is consumed first
+    (str() of a generator object would be '<generator object ... at 0x...>')."""
+    return str(materialize(value))
 
 
 def materialize(value: Any) -> Any:
